@@ -9,7 +9,7 @@ S=/tmp/iso-seeds
 rm -rf $S; mkdir -p $S
 rsync -a --exclude target /repo/ $S/repo/
 rsync -a --exclude replays /verif/ $S/verif/
-[ -z "$names" ] && names=$(ls /verif/seeded)
+[ -z "$names" ] && names=$(ls /verif/seeded | tr "\n" " ")
 unshare -m bash -c "
 mount --bind $S/repo /repo && mount --bind $S/verif /verif || exit 2
 cd /verif
